@@ -6,7 +6,7 @@ UNITS = {
     'k_compare': dict(cpp='harness/k_compare.cpp'),
     # T0/T1 without split: functions that the shape cannot reach are cut (a cut is an assertion, DESIGN 2.9(2))
     'n_t1': dict(cpp='harness/n_t1.cpp', cdefs=('YK_VAL_CAP=16',), cuts=('delete_ofILb0', 'get_child_of', 'interior_node9delete_of')),
-    'n_t1s': dict(cpp='harness/n_t1.cpp', cdefs=('YK_VAL_CAP=16', 'YK_NALLOC=40')),
+    'n_t1s': dict(cpp='harness/n_t1.cpp', cdefs=('YK_VAL_CAP=16', 'YK_NALLOC=24')),
     'n_c16': dict(cpp='harness/n_c16.cpp', cdefs=('YK_HAVE_ON_SLEEP', 'YK_HAVE_THREAD_JOIN', 'YK_VAL_CAP=16'), extra_c=('rt/join_epoch_gc.c',), extra_roots=('yk_on_sleep',), sessions=2),
     'n_c14_s1': dict(cpp='harness/n_c16.cpp', cdefs=('YK_HAVE_ON_SLEEP', 'YK_HAVE_THREAD_JOIN', 'YK_VAL_CAP=16'), extra_c=('rt/join_epoch_gc.c',), extra_roots=('yk_on_sleep',), sessions=1),
     'n_c14_s3': dict(cpp='harness/n_c16.cpp', cdefs=('YK_HAVE_ON_SLEEP', 'YK_HAVE_THREAD_JOIN', 'YK_VAL_CAP=16'), extra_c=('rt/join_epoch_gc.c',), extra_roots=('yk_on_sleep',), sessions=3),
@@ -41,8 +41,11 @@ _T1_REMOVE = [H('n_t1', 'H_t1_remove_n%d' % n, 'real remove on T1(%d): status, R
 _T1_PUT = [H('n_t1', 'H_t1_put_n%d' % n, 'real put<char> (upsert / unique) on T1(%d): status, RI(post), probe get == reference map, inserted_node_info, version effect, gc conformance' % n, T1B) for n in (1, 2, 3)]
 _T0_PUT = [H('n_t1', 'H_t0_put', 'first put into a storage without root (+ get/remove on the empty storage)', 'all keys of length 0..8'),
            H('n_t1', 'H_t0d_put', 're-insert into the empty deleted root that removes leave behind behaves like a fresh storage', 'all keys of length 0..8')]
-_T1_BIG = [H('n_t1', 'H_t1_put_n14', 'put into T1(14) (last insert before the node is full)', T1B, tier='thorough', timeout=3000),
-           H('n_t1s', 'H_t1_put_split', 'put into a FULL root border: border_split + new interior root; map semantics, RI, C12', T1B, tier='thorough', timeout=3400)]
+T15 = 'shape T1(15): ranks 7 and 8 (the neighbours of the split point) symbolic, the other 13 entries concrete 1-byte keys; op key and probe key all byte strings of length 0..8'
+_T1_SPLIT_Q = [H('n_t1s', 'H_t1_split_struct', 'put into a FULL root border: border_split + new interior root: structure, separator bounds, links, flags, C12 reporting', T15, data=16, timeout=900)]
+_T1_SPLIT_T = [H('n_t1s', 'H_t1_split_probe', 'same step: real get of a symbolic probe key on the split tree == reference map (the new key may sit exactly at the split point)', T15, tier='thorough', data=16, timeout=3400),
+               H('n_t1s', 'H_t1_split_probe_scr', 'same with scrambled slots', T15, tier='thorough', data=16, timeout=3400)]
+_T1_BIG = _T1_SPLIT_Q + _T1_SPLIT_T
 
 REGISTRY = {
     'C05': [
